@@ -1095,3 +1095,9 @@ def _(eng, ci, a, dt):
 @model('NonZero::get')
 def _(eng, ci, a, dt):
     return deref(a[0]).f[0]
+
+
+@model('Drop::drop')
+def _(eng, ci, a, dt):
+    """explicit drop glue call (e.g. of a moved-out Box): no user Drop impl exists in the crate (checked by the driver)"""
+    return UNIT
